@@ -107,7 +107,7 @@ Qed.
 (** ... hence get by a patch or upgrade query lowers no project and keeps the project at the resolved version
     or above (the hypothesis "not a downgrade" of get_upgrade_contains_and_no_lower always holds) *)
 Theorem patch_upgrade_lowers_nothing pick U root q k c' :
-  wf_universe U -> wf_reqs (map snd root) -> names_unique root -> paths_unique root ->
+  wf_universe U -> wf_reqs (map snd root) -> names_unique root ->
   match k with QUpgrade | QPatch => True | _ => False end ->
   apply_op pick U root (OpGet q k) = Ok c' ->
   exists bl0 version,
@@ -119,8 +119,8 @@ Theorem patch_upgrade_lowers_nothing pick U root q k c' :
        (u_fuel U (map snd c') <= fuel1)%nat -> dawn_build_list pick1 fuel1 U c' = Ok bl1 ->
        no_lower bl0 bl1 /\ exists w, In (fst version, w) bl1 /\ vle (snd version) w = true).
 Proof.
-  intros WU WR NU PU K H.
-  destruct (get_upgrade_contains_and_no_lower pick U root q k c' WU WR NU PU H) as (bl0 & version & E0 & EQ & R).
+  intros WU WR NU K H.
+  destruct (get_upgrade_contains_and_no_lower pick U root q k c' WU WR NU H) as (bl0 & version & E0 & EQ & R).
   assert (NG : forall cur, find_path (fst version) bl0 = Some cur -> sem_cmp cur (snd version) <> Gt)
     by (eapply patch_upgrade_not_below_selection; eauto).
   exists bl0, version. split; [exact E0|]. split; [exact EQ|]. split; [exact NG|].
